@@ -75,6 +75,11 @@ def main():
         'not_applicable': na,
     }
     json.dump(man, open(os.path.join(V, 'MANIFEST.json'), 'w'), indent=1)
+    # canonical known-findings file = union of known_findings/*.json
+    merged = []
+    for f in sorted(glob.glob(os.path.join(V, 'known_findings', '*.json'))):
+        merged += json.load(open(f)).get('findings', [])
+    json.dump({'findings': merged}, open(os.path.join(V, 'KNOWN_FINDINGS.json'), 'w'), indent=1)
     print('claimed:', ' '.join(claimed))
 
 
